@@ -203,13 +203,16 @@ impl<'c> MGen<'c> {
     /// Statements that assign every bit of `t` (constant values when `lits`).
     fn full_assign(&mut self, d: &mut Draw, sc: &Scope, t: DeclId, lits: bool) -> Vec<Stmt> {
         let dd = self.m.decls[t].clone();
-        let mut rhs = |this: &mut Self, d: &mut Draw, ty: Ty| -> Expr {
+        let rhs_p = |this: &mut Self, d: &mut Draw, ty: Ty, partial: bool| -> Expr {
             if lits {
-                if d.chance(1, 3) { Expr::Lit(Lit::Dec(0)) } else { Expr::lit(ty, gen_value(d, ty.w)) }
+                // (a select / field target takes at most 64 bits of literal: known finding partial-assign-wide-rhs)
+                let w = if partial && this.cfg.avoid.contains("partial-assign-wide-rhs") { ty.w.min(64) } else { ty.w };
+                if d.chance(1, 3) { Expr::Lit(Lit::Dec(0)) } else { Expr::lit(Ty::new(w, ty.signed), gen_value(d, w)) }
             } else {
-                this.gen_rhs(d, sc, ty)
+                this.gen_rhs_for(d, sc, ty, partial)
             }
         };
+        let rhs = |this: &mut Self, d: &mut Draw, ty: Ty| -> Expr { rhs_p(this, d, ty, false) };
         if let Some(n) = dd.array {
             if self.cfg.for_stmt && d.chance(2, 3) {
                 let iname = self.fresh("ix");
@@ -265,7 +268,7 @@ impl<'c> MGen<'c> {
                             sel: Sel::None,
                         },
                         op: AssignOp::Set,
-                        rhs: rhs(self, d, ft),
+                        rhs: rhs_p(self, d, ft, true),
                     }
                 })
                 .collect();
@@ -283,7 +286,7 @@ impl<'c> MGen<'c> {
                         sel: Sel::Range(CIdx::Num(cut - 1), CIdx::Num(0)),
                     },
                     op: AssignOp::Set,
-                    rhs: rhs(self, d, Ty::u(cut)),
+                    rhs: rhs_p(self, d, Ty::u(cut), true),
                 },
                 Stmt::Assign {
                     lhs: Ref {
@@ -293,7 +296,7 @@ impl<'c> MGen<'c> {
                         sel: Sel::Range(CIdx::Num(dd.ty.w - 1), CIdx::Num(cut)),
                     },
                     op: AssignOp::Set,
-                    rhs: rhs(self, d, Ty::u(dd.ty.w - cut)),
+                    rhs: rhs_p(self, d, Ty::u(dd.ty.w - cut), true),
                 },
             ];
         }
@@ -391,10 +394,21 @@ impl<'c> MGen<'c> {
                 let (sel, st) = self.gen_selector(d, sc, 1);
                 let n = 1 + d.below(3);
                 let mut arms = vec![];
+                let mut used = vec![];
                 for _ in 0..n {
-                    let items = self.case_items(d, st);
+                    let mut items = self.case_items(d, st, &mut used);
+                    // known finding jit-panic-wide-case-range: no range items for a selector wider than 64 bits
+                    if st.w > 64 && items.iter().any(|i| !matches!(i, RangeItem::Val(_))) && self.avoid(d, "jit-panic-wide-case-range") {
+                        items.retain(|i| matches!(i, RangeItem::Val(_)));
+                    }
+                    if items.is_empty() {
+                        continue;
+                    }
                     let nb = 1 + d.below(2);
                     arms.push((items, self.gen_block(d, sc, targets, depth - 1, blk, nb)));
+                }
+                if arms.is_empty() {
+                    arms.push((vec![RangeItem::Val(self.lit_of(st, 0))], self.gen_block(d, sc, targets, depth - 1, blk, 1)));
                 }
                 let default = if d.chance(2, 3) { Some(self.gen_block(d, sc, targets, depth - 1, blk, 1)) } else { None };
                 self.class(if default.is_some() { "stmt:case" } else { "stmt:case_nodefault" });
@@ -483,7 +497,8 @@ impl<'c> MGen<'c> {
                 }
                 let lhs = self.gen_lhs(d, sc, t);
                 let ty = eval::ref_ty(&self.m, &lhs);
-                let rhs = self.gen_rhs(d, sc, ty);
+                let partial = !matches!(lhs.sel, Sel::None) || lhs.field.is_some() || lhs.idx.is_some();
+                let rhs = self.gen_rhs_for(d, sc, ty, partial);
                 Stmt::Assign {
                     lhs,
                     op: AssignOp::Set,
@@ -506,7 +521,8 @@ impl<'c> MGen<'c> {
             _ => {
                 let lhs = self.gen_lhs(d, sc, t);
                 let ty = eval::ref_ty(&self.m, &lhs);
-                let rhs = self.gen_rhs(d, sc, ty);
+                let partial = !matches!(lhs.sel, Sel::None) || lhs.field.is_some() || lhs.idx.is_some();
+                let rhs = self.gen_rhs_for(d, sc, ty, partial);
                 Stmt::Assign {
                     lhs,
                     op: AssignOp::Set,
@@ -569,6 +585,12 @@ fn gen_module(d: &mut Draw, cfg: &GenCfg, name: &str, done: &[Module], children:
             let mut grp = vec![];
             for _ in 0..k {
                 let t = g.new_target(d, true, &mut outputs_left);
+                // known finding `ff-array-dynamic-index`: an unpacked array
+                // held in flip-flops and read with a run-time index makes
+                // build_ir fail ("unsupported description") in some modes
+                if g.m.decls[t].array.is_some() && g.avoid(d, "ff-array-dynamic-index") {
+                    g.m.decls[t].array = None;
+                }
                 grp.push(t);
                 sc.vars.push(t);
             }
